@@ -23,6 +23,29 @@ Check C47_int_inlist_exact :
   forall (a b : ity) (x : Z) (ys : list Z),
     in_irange a x = true -> Forall (fun y => in_irange b y = true) ys ->
     eval_inlist (TInt a) x (TInt b) ys = EOk (existsb (Z.eqb x) ys).
+Check C47_decimal_cmp_exact_or_error :
+  forall (ta tb : nty) (x y : Z) (op : cmpop) (t : nty) (r : bool),
+    ty_ok ta = true -> ty_ok tb = true -> val_ok ta x = true -> val_ok tb y = true ->
+    comparison_coercion ta tb = Some t -> is_decimal t = true ->
+    eval_ovf ta tb = false ->
+    eval_cmp op ta x tb y = EOk r ->
+    r = spec_cmp op ta x tb y.
+Check C47_no_overflow_below_decimal256 :
+  forall ta tb : nty,
+    ty_ok ta = true -> ty_ok tb = true -> not256 ta = true -> not256 tb = true ->
+    eval_ovf ta tb = false.
+Check C47_decimal_vs_integer_refuted :
+  exists (ta tb : nty) (x y : Z) (op : cmpop) (r : bool),
+    ty_ok ta = true /\ ty_ok tb = true /\ val_ok ta x = true /\ val_ok tb y = true /\
+    eval_ovf ta tb = false /\
+    comparison_coercion ta tb = Some (TInt I32) /\
+    eval_cmp op ta x tb y = EOk r /\ r <> spec_cmp op ta x tb y.
+Check C47_decimal256_wrap_refuted :
+  exists (ta tb : nty) (x y : Z) (op : cmpop) (r : bool),
+    ty_ok ta = true /\ ty_ok tb = true /\ val_ok ta x = true /\ val_ok tb y = true /\
+    eval_ovf ta tb = true /\
+    comparison_coercion ta tb = Some (TDec D256 76 76) /\
+    eval_cmp op ta x tb y = EOk r /\ r <> spec_cmp op ta x tb y.
 Print Assumptions C47_coercion_symmetric.
 Print Assumptions C47_coercion_panic_symmetric.
 Print Assumptions C47_int_cmp_exact.
@@ -30,4 +53,8 @@ Print Assumptions C47_int_common_type_contains_both.
 Print Assumptions C47_int_cmp_never_panics.
 Print Assumptions C47_swap_mirror.
 Print Assumptions C47_int_inlist_exact.
+Print Assumptions C47_decimal_cmp_exact_or_error.
+Print Assumptions C47_no_overflow_below_decimal256.
+Print Assumptions C47_decimal_vs_integer_refuted.
+Print Assumptions C47_decimal256_wrap_refuted.
 Print Assumptions C47_nonvacuous.
